@@ -252,3 +252,7 @@ for fn in ("next", "seek"):
 add("fs_dup_destroy", ["C07", "C18"], ["tu/fileset_step.c"], "h_fileset_dup_destroy", unwind=5, timeout=600, safety="P",
     strength="B: dup of an arbitrary handle, first reload of the dup, destruction of both handles in either order; <= 3 entries in the reader set",
     functions=["mtbl_fileset_dup", "mtbl_fileset_set_options", "mtbl_fileset_destroy", "mtbl_fileset_reload", "fs_reinit_merger"], assumptions=FS_ASSUME + ["memory-safety checks are property-grade here (no use of the shared state after it is freed)"], replay="c07")
+add("sep_dfcc", ["C09", "C02", "C01"], ["tu/sep_dfcc.c"], "h_sep_dfcc", mode="dfcc", enforce="bytes_shortest_separator/bytes_shortest_separator__spec",
+    replace=["bytes_compare/bytes_compare__any"], loops="loops/sep.json", unwind=8, timeout=600, strength="U", functions=["bytes_shortest_separator"],
+    assumptions=["keys of any length <= 2^40; the closing assert(bytes_compare(start, limit) < 0) is a permitted loud stop here (that it cannot fire follows from E1-E3 and the definition of the order; confirmed with the real comparator for keys <= 4 bytes in wr_add_step)",
+                 "glue (definition of the bytewise order): each of E1 (with start < limit at the call site), E2, E3 is a key k with start <= k < limit"])
